@@ -9,7 +9,9 @@ Property theorems only; helper lemmas are in `Proofs/ServeRefine.lean`.
 3. `spec_*`: the four sentences of the statement, as corollaries of `Spec.answer` alone.
 4. `cut_refines`, `findAnswer_refines`, `serve_v1_refines_spec`: on any store that holds exactly the
    rows of a well-formed record list under the v1 key layout (CDB and RocksDB v1), the handler
-   model returns `Spec.answer`.
+   model returns `Spec.answer`. `serve_v1_refines_spec_anycase` / `file_served_as_declared_anycase`:
+   the same for NS / MX targets written in any letter case, the additional section up to the
+   letter case of its owner names.
 5. `answer_perm_invariant`, `serve_v1_refines_spec_file_order`: `Spec.answer` is a function of the
    multiset of declared records (up to order inside sections), so the refinement holds against the
    record list in file order.
@@ -382,8 +384,11 @@ the order the v1 readers produce (`viewSort`).
 `TargetsOK` is the forced hypothesis on the additional section: the names it is built for (NS / MX
 targets as written in the rdata, the owner of HTTPS answers) are `NameOK` — in particular
 lower-case, since the handler keeps the rdata's case in the owner of additional records while the
-spec lower-cases — and pairwise distinct, since the handler's duplicate suppression (`HasRecord`
-on the message built so far) does not see a group none of whose candidates has positive weight. -/
+spec lower-cases (this is all the lower-case requirement is still needed for, since `HasRecord`
+compares case-insensitively: `serve_v1_refines_spec_anycase` below drops it and concludes equality
+up to the letter case of additional owner names) — and pairwise distinct, since the handler's
+duplicate suppression (`HasRecord` on the message built so far) does not see a group none of whose
+candidates has positive weight. Counterexamples for both: `upperTarget`, `dupTarget` below. -/
 theorem serve_v1_refines_spec (b : Backend) (hb : b ≠ .rdbV2) (s : Store) (recs : List Rec) (l : Bytes)
     (h0 : RepresentsAt s recs [0, 0]) (hl : RepresentsAt s recs l) (hwf : WellFormed recs)
     (q : List Bytes) (hq : NameOK q) (qtype qclass maxAns : Nat)
@@ -443,6 +448,93 @@ example :
 example :
     (Spec.answer ⟨viewSort [0, 0] sampleRecs, [], []⟩ (N ["ex", "com"]) 15 1 1 [0, 0]).additional
       = [⟨N ["www", "ex", "com"], 1, 1, [(300, 1, [1, 2, 3, 4])], 1⟩] := by
+  decide +kernel
+
+/-! The additional section when the rdata spells NS / MX targets in any letter case.
+
+Since commit "fix: HasRecord compares owner names case-insensitively" the lower-case half of
+`TargetsOK` is needed for one thing only: the handler copies the rdata's spelling of the target into
+the owner name of the additional records, the spec lower-cases it. `TargetsLowOK` asks of the
+*lower-cased* targets (`targetsOf`) what `TargetsOK` asks of the targets as written: storable
+(`NameOK`) and pairwise distinct. Under it the reply is `Spec.answer` in every field, the additional
+section up to the letter case of its owner names (`ServeKey.lowGroup` lower-cases the owner). -/
+
+/-- `TargetsOK` implies `TargetsLowOK` -/
+theorem targetsLowOK_of_targetsOK (rrs : List OutRR) (h : TargetsOK rrs) : TargetsLowOK rrs :=
+  ServeRefine.targetsLowOK_of_targetsOK rrs h
+
+/-- **Refinement, targets in any letter case.** Hypotheses of `serve_v1_refines_spec` with
+`TargetsLowOK` in place of `TargetsOK`: the handler replies; rcode, AA, answer records, answer
+address groups and authority are literally the spec's; the additional section is the spec's once
+its owner names are lower-cased (types, classes, candidate lists, limits, order: literally equal). -/
+theorem serve_v1_refines_spec_anycase (b : Backend) (hb : b ≠ .rdbV2) (s : Store) (recs : List Rec) (l : Bytes)
+    (h0 : RepresentsAt s recs [0, 0]) (hl : RepresentsAt s recs l) (hwf : WellFormed recs)
+    (q : List Bytes) (hq : NameOK q) (qtype qclass maxAns : Nat)
+    (maps : List MapDecl) (subnets : List SubnetDecl)
+    (ht : TargetsLowOK ((Spec.answer ⟨viewSort l recs, maps, subnets⟩ q qtype qclass maxAns l).answer ++
+                        (Spec.answer ⟨viewSort l recs, maps, subnets⟩ q qtype qclass maxAns l).authority)) :
+    ∃ extra, serve ⟨b, s, l⟩ ⟨pack q, pack q, qtype, qclass, maxAns⟩ =
+        .reply { ofSpec (Spec.answer ⟨viewSort l recs, maps, subnets⟩ q qtype qclass maxAns l) with
+                 extra := extra } ∧
+      extra.map ServeKey.lowGroup =
+        (Spec.answer ⟨viewSort l recs, maps, subnets⟩ q qtype qclass maxAns l).additional.map ofSpecGroup :=
+  serve_v1_full_ci b hb s recs l h0 hl hwf q hq qtype qclass maxAns maps subnets ht
+
+/-- `x.` with an MX record whose target is written `M.x.` in the rdata; `m.x.` has an address -/
+def upperTarget : List Rec := [
+  ⟨N ["x"], false, [0, 0], 6, 60, 0, soaRd⟩,
+  ⟨N ["x"], false, [0, 0], 2, 60, 0, nm ["ns", "x"]⟩,
+  ⟨N ["m", "x"], false, [0, 0], 1, 60, 1, [1, 2, 3, 4]⟩,
+  ⟨N ["x"], false, [0, 0], 15, 60, 0, be16 10 ++ nm ["M", "x"]⟩]
+
+/-- `x.` with two MX records for the same target `m.x.`, whose address has weight 0 -/
+def dupTarget : List Rec := [
+  ⟨N ["x"], false, [0, 0], 6, 60, 0, soaRd⟩,
+  ⟨N ["x"], false, [0, 0], 2, 60, 0, nm ["ns", "x"]⟩,
+  ⟨N ["m", "x"], false, [0, 0], 1, 60, 0, [1, 2, 3, 4]⟩,
+  ⟨N ["x"], false, [0, 0], 15, 60, 0, be16 10 ++ nm ["m", "x"]⟩,
+  ⟨N ["x"], false, [0, 0], 15, 60, 0, be16 20 ++ nm ["m", "x"]⟩]
+
+def extraOf : Outcome → Option (List AddrGroup)
+  | .reply r => some r.extra
+  | _ => none
+
+def mxQuery : Query := ⟨pack (N ["x"]), pack (N ["x"]), 15, 1, 1⟩
+
+/-- non-vacuity of `serve_v1_refines_spec_anycase`, and the lower-case half of `TargetsOK` is forced
+for literal equality: with the target written `M.x.`, `TargetsLowOK` holds, `TargetsOK` does not;
+the handler's additional record is owned by `M.x.`, the spec's by `m.x.` — the reply is NOT
+`ofSpec (Spec.answer …)`, and it is once the additional owner is lower-cased. -/
+example :
+    let A := Spec.answer ⟨viewSort [0, 0] upperTarget, [], []⟩ (N ["x"]) 15 1 1 [0, 0]
+    TargetsLowOK (A.answer ++ A.authority) ∧ ¬ TargetsOK (A.answer ++ A.authority) ∧
+    extraOf (serve ⟨.cdb false, storeOf upperTarget, [0, 0]⟩ mxQuery) =
+      some [⟨pack (N ["M", "x"]), 1, 1, [⟨60, 1, [1, 2, 3, 4]⟩], 1⟩] ∧
+    A.additional = [⟨N ["m", "x"], 1, 1, [(60, 1, [1, 2, 3, 4])], 1⟩] ∧
+    serve ⟨.cdb false, storeOf upperTarget, [0, 0]⟩ mxQuery ≠ .reply (ofSpec A) ∧
+    ∃ extra, serve ⟨.cdb false, storeOf upperTarget, [0, 0]⟩ mxQuery = .reply { ofSpec A with extra := extra } ∧
+      extra.map ServeKey.lowGroup = A.additional.map ofSpecGroup := by
+  intro A
+  refine ⟨by decide +kernel, by decide +kernel, by decide +kernel, by decide +kernel, ?_, ?_⟩
+  · intro h
+    have h2 : extraOf (serve ⟨.cdb false, storeOf upperTarget, [0, 0]⟩ mxQuery) = extraOf (.reply (ofSpec A)) := by
+      rw [h]
+    exact absurd h2 (by decide +kernel)
+  · exact serve_v1_refines_spec_anycase (.cdb false) (by decide) _ upperTarget [0, 0]
+      (represents_storeOf upperTarget (by decide +kernel) [0, 0] rfl)
+      (represents_storeOf upperTarget (by decide +kernel) [0, 0] rfl)
+      (by decide +kernel) _ (by decide +kernel) 15 1 1 [] [] (by decide +kernel)
+
+/-- distinctness is forced, also up to letter case: two MX records for one target whose address has
+weight 0 — `HasRecord` looks for a *served* address, finds none, and the handler adds the group
+twice; the spec adds it once. -/
+example :
+    let A := Spec.answer ⟨viewSort [0, 0] dupTarget, [], []⟩ (N ["x"]) 15 1 1 [0, 0]
+    WellFormed dupTarget ∧ ¬ TargetsLowOK (A.answer ++ A.authority) ∧
+    (extraOf (serve ⟨.cdb false, storeOf dupTarget, [0, 0]⟩ mxQuery)).map (·.map ServeKey.lowGroup) =
+      some [⟨pack (N ["m", "x"]), 1, 1, [⟨60, 0, [1, 2, 3, 4]⟩], 1⟩,
+            ⟨pack (N ["m", "x"]), 1, 1, [⟨60, 0, [1, 2, 3, 4]⟩], 1⟩] ∧
+    A.additional.map ofSpecGroup = [⟨pack (N ["m", "x"]), 1, 1, [⟨60, 0, [1, 2, 3, 4]⟩], 1⟩] := by
   decide +kernel
 
 /-! the hypothesis `SoaHasNs` is forced: an SOA whose owner has no NS makes the zone-cut walk carry
@@ -666,6 +758,30 @@ theorem file_served_as_declared (b : Backend) (hb : (∃ sep, b = .cdb sep) ∨ 
   have hb' : b ≠ .rdbV2 := by
     rcases hb with ⟨sep, h⟩ | h <;> rw [h] <;> intro h' <;> cases h'
   exact serve_v1_full b hb' store z.recs l
+    (compile_representsAt b hb svcb lines store z hc hz hlines [0, 0] (by decide))
+    (compile_representsAt b hb svcb lines store z hc hz hlines l hl)
+    hwf q hq qtype qclass maxAns z.maps z.subnets ht
+
+/-- **Served as declared, targets in any letter case.** As `file_served_as_declared` with
+`TargetsLowOK` (the lower-cased NS / MX targets are storable and pairwise distinct) in place of
+`TargetsOK`: every field of the reply is `Spec.answer`'s, the additional section up to the letter
+case of its owner names. -/
+theorem file_served_as_declared_anycase (b : Backend) (hb : (∃ sep, b = .cdb sep) ∨ b = .rdbV1) (svcb : SvcbFn)
+    (lines : List Bytes) (store : Store) (z : Zone)
+    (hc : compile b svcb lines = some store) (hz : zoneOf lines = some z) (hlines : LinesOK lines)
+    (hwf : WellFormed z.recs) (l : Bytes) (hl : TagOK l)
+    (q : List Bytes) (hq : NameOK q) (qtype qclass maxAns : Nat)
+    (ht : TargetsLowOK ((Spec.answer ⟨viewSort l z.recs, z.maps, z.subnets⟩ q qtype qclass maxAns l).answer ++
+                        (Spec.answer ⟨viewSort l z.recs, z.maps, z.subnets⟩ q qtype qclass maxAns l).authority)) :
+    ∃ extra, serve ⟨b, store, l⟩ ⟨pack q, pack q, qtype, qclass, maxAns⟩ =
+        .reply { ofSpec (Spec.answer ⟨viewSort l z.recs, z.maps, z.subnets⟩ q qtype qclass maxAns l) with
+                 extra := extra } ∧
+      extra.map ServeKey.lowGroup =
+        (Spec.answer ⟨viewSort l z.recs, z.maps, z.subnets⟩ q qtype qclass maxAns l).additional.map
+          ofSpecGroup := by
+  have hb' : b ≠ .rdbV2 := by
+    rcases hb with ⟨sep, h⟩ | h <;> rw [h] <;> intro h' <;> cases h'
+  exact serve_v1_full_ci b hb' store z.recs l
     (compile_representsAt b hb svcb lines store z hc hz hlines [0, 0] (by decide))
     (compile_representsAt b hb svcb lines store z hc hz hlines l hl)
     hwf q hq qtype qclass maxAns z.maps z.subnets ht
